@@ -6,6 +6,7 @@ import (
 	"bytes"
 	"crypto"
 	"crypto/ecdsa"
+	"crypto/elliptic"
 	"crypto/rsa"
 	"crypto/sha256"
 	"crypto/sha512"
@@ -364,6 +365,65 @@ func (u *universe) checkJWKS(body []byte) (int, []problem) {
 			len(keys), os, strings.Join(notes, "; ")), Detail: memberSummary(keys)})
 	}
 	return gen, out
+}
+
+// verifiesAgainstKeySet is what every client of the JWKS endpoint does with a token: look up the key the header
+// names (kid, alg) in the key-set document and verify the signature with it. Returns "" if the token verifies,
+// else the reason.
+func verifiesAgainstKeySet(raw string, body []byte) string {
+	parts := strings.Split(raw, ".")
+	if len(parts) != 3 {
+		return "token is not a compact JWS"
+	}
+	hb, err1 := base64.RawURLEncoding.DecodeString(parts[0])
+	sig, err2 := base64.RawURLEncoding.DecodeString(parts[2])
+	var hdr map[string]any
+	if err1 != nil || err2 != nil || json.Unmarshal(hb, &hdr) != nil {
+		return "token header/signature cannot be decoded"
+	}
+	kid, _ := hdr["kid"].(string)
+	alg, _ := hdr["alg"].(string)
+	var doc struct {
+		Keys []map[string]any `json:"keys"`
+	}
+	if err := json.Unmarshal(body, &doc); err != nil {
+		return "key set is not JSON: " + err.Error()
+	}
+	var kids []string
+	named := 0
+	for _, k := range doc.Keys {
+		id, _ := k["kid"].(string)
+		kids = append(kids, id)
+		if id != kid {
+			continue
+		}
+		named++
+		if a, ok := k["alg"]; ok && a != alg {
+			continue
+		}
+		var pub crypto.PublicKey
+		switch k["kty"] {
+		case "RSA":
+			n, e := b64int(k["n"]), b64int(k["e"])
+			if n != nil && e != nil && e.IsInt64() {
+				pub = &rsa.PublicKey{N: n, E: int(e.Int64())}
+			}
+		case "EC":
+			crv, _ := k["crv"].(string)
+			c := map[string]elliptic.Curve{"P-256": elliptic.P256(), "P-384": elliptic.P384(), "P-521": elliptic.P521()}[crv]
+			x, y := b64int(k["x"]), b64int(k["y"])
+			if c != nil && x != nil && y != nil {
+				pub = &ecdsa.PublicKey{Curve: c, X: x, Y: y}
+			}
+		}
+		if pub != nil && verifySig(alg, pub, []byte(parts[0]+"."+parts[1]), sig) {
+			return ""
+		}
+	}
+	if named == 0 {
+		return fmt.Sprintf("the token names kid=%q alg=%s, the key set lists no key under that id (published ids: %q)", kid, alg, kids)
+	}
+	return fmt.Sprintf("the token names kid=%q alg=%s, the signature does not verify with the key published under that id (published ids: %q)", kid, alg, kids)
 }
 
 func contains(l []string, s string) bool {
